@@ -235,3 +235,25 @@ def error_discipline(site):
         if isinstance(s, (ast.Return, ast.Raise)):
             break
     return False, "return value never tested", None
+
+
+def check_init(rep, v, want, rule, file, func, cons, line, need_fresh=True, extra_ok=True, detail_bad="", fdef=None):
+    """verdict on the initial content of a buffer handed to a kernel: proved when the evaluator knows it is `want` (and fresh), violation when
+    it knows something else (uninitialised, another constant, the caller's array), undecided when the content is not tracked"""
+    if v is not None and v[1].init is None and v[1].roots and not v[1].fresh and fdef is not None and isinstance(v[0], ast.Name):
+        # the buffer can be the caller's own array: its content is whatever the caller left in it, unless this function writes it in a way the
+        # evaluator does not follow (slice store, in-place method other than fill, np.copyto ...)
+        nm = v[0].id
+        other_writes = [n for n in ast.walk(fdef) if (isinstance(n, ast.Subscript) and isinstance(n.ctx, ast.Store) and isinstance(n.value, ast.Name) and n.value.id == nm) or
+                        (isinstance(n, ast.Call) and isinstance(n.func, ast.Attribute) and isinstance(n.func.value, ast.Name) and n.func.value.id == nm and n.func.attr not in ("fill", "astype", "copy")) or
+                        (isinstance(n, ast.Call) and any(isinstance(a_, ast.Name) and a_.id == nm for a_ in n.args) and dotted(n.func) in ("np.copyto", "np.put", "np.place"))]
+        if not other_writes:
+            rep.violation(rule, file, func, cons, detail_bad or f"`{nm}` can be the caller's array and reaches the kernel with the content the caller left in it", line=line)
+            return False
+    if v is None or v[1].init is None:
+        rep.undecided(rule, file, func, cons, "initial content of the buffer is not tracked by the shape evaluator (" +
+                      (ast.unparse(v[0])[:60] if v is not None else "argument not bound") + ")", line=line)
+        return None
+    ok = v[1].init == want and (v[1].fresh or not need_fresh) and extra_ok
+    rep.check(ok, rule, file, func, cons, detail_bad or f"init {v[1].init}, fresh {v[1].fresh}", line=line)
+    return ok
